@@ -18,6 +18,7 @@ From MV Require Import Doc.WF.
 From MV Require Import Doc.PostProofs.
 From MV Require Import Doc.TopProofs.
 From MV Require Import Doc.Final.
+From MV Require Import Doc.Total.
 From MV Require Import Doc.Backends.
 Import ListNotations.
 
@@ -64,10 +65,8 @@ Print Assumptions C02_render_restores_cur.
    roles, substitutions, front matter - as an oracle O_dyn (the nodes and warnings the real run produced; the
    model accepts runs that leave the document registries alone and return no section / transition / table
    structure: dyn_static).  The image of such a token is the image of the nodes of its run (Skel.dyn_skel).
-   The premise "the model renders the forest" is still there: totality on the static grammar is NOT proved
-   (it needs the consistency of docutils' name registry through every render method); it is measured - the
-   extracted predicate Backends.static_total is evaluated on every correspondence case and no forest
-   satisfying it has failed to render (evidence counts measured:totality). *)
+   The premise "the model renders the forest" is discharged by C02_faithful_total below, up to failures of the
+   docutils registry operations. *)
 Theorem C02_faithful : forall (D : str -> str) (B : backend) (C : cfg) (OR : oracles)
                               (ts : list tok) (doc : node) (ws : list str),
   O_lexer_concat OR -> O_canon D OR -> O_no_files OR ->
@@ -77,6 +76,35 @@ Theorem C02_faithful : forall (D : str -> str) (B : backend) (C : cfg) (OR : ora
   skel_node D doc = skel_toks D B C OR ts.
 Proof. exact faithful. Qed.
 Print Assumptions C02_faithful.
+
+(* TOTALITY on the static grammar, up to the registry.  total_forest narrows the static grammar by what the model
+   leaves out (Total.total_kind_ok: block-quote attribution, lineno-start / emphasize-lines, image width / height /
+   align, html_image / html_admonition, inv: links, glossary definition lists under Sphinx, a heading whose text
+   would contain a system message, {eval-rst}, a dynamic token whose run the oracle does not answer within the
+   accepted fragment) and by token shapes markdown-it always delivers (heading tag h1..h6, meta keys, table /
+   definition-list / field-list structure).  For both back ends, every configuration and oracle behaviour, every
+   such forest is rendered - no `Fail` of the renderer is reachable, every heading finds its parent section, every
+   current_node_context finds its node - or one of the operations of the registry interface (Total.reg_api:
+   allocation, warnings, copy_attributes, note_explicit/implicit_target, names, note_*footnote*, set_id, the splice
+   of oracle nodes) returned the error.  That those operations do not fail on the states the renderer produces is
+   docutils' registry protocol: not proved; every correspondence case exercises it and the extracted premise is
+   evaluated on every case (evidence counts measured:totality: no forest satisfying it has failed to render). *)
+Theorem C02_total : forall B C OR ts,
+  total_forest B C OR ts = true ->
+  (exists doc ws, render_doc B C OR ts = Good (doc, ws)) \/
+  (exists e, render_doc B C OR ts = Bad e /\ reg_fail C OR e).
+Proof. exact render_doc_total. Qed.
+Print Assumptions C02_total.
+
+(* ... hence the faithful image without the premise that the model renders the forest *)
+Theorem C02_faithful_total : forall (D : str -> str) B C OR ts,
+  O_lexer_concat OR -> O_canon D OR -> O_no_files OR ->
+  static_forest B C OR ts = true -> total_forest B C OR ts = true ->
+  (exists doc ws, render_doc B C OR ts = Good (doc, ws) /\
+                  (has_dropped doc = false -> skel_node D doc = skel_toks D B C OR ts)) \/
+  (exists e, render_doc B C OR ts = Bad e /\ reg_fail C OR e).
+Proof. exact faithful_total. Qed.
+Print Assumptions C02_faithful_total.
 
 (* A dynamic token is spliced exactly once, at its own position: the document that consists of one directive
    fence / role / substitution / front-matter token is the image of the nodes of that run, in order, nothing
